@@ -2,14 +2,18 @@
 //
 //	dhcp.restart <cfg>:<mode> <op>;<op>;…                       run the history with a lease file, restart from that file
 //	dhcp.load <cfg>:<mode> <capturedMacs> <hexfile> <hexorig>   construct a handler from the given bytes (orig: the intact file the bytes were derived from, or -)
+//	dhcp.loadlegacy …                                           the same for a file WITHOUT integrity line (written by an older version): outside the repaired code path
 //
-// Both are completed with ` @ <home> <netfilter> <captured> <record>` where record is what the real
-// yaml.v2 decoded from the same bytes into the library's record type; the model (Model/Dhcp4File.construct)
-// must return the table and subnets the real constructor built.
+// All are completed with ` @ <home> <netfilter> <captured> <record of the file> <record of the file after byte 75> <first 75 bytes> <sha256 of the rest>`
+// where the records are what the real yaml.v2 decoded from those bytes into the library's record type; the model
+// (Model/Dhcp4File.openFile + construct) decides from the first 75 bytes and the hash whether the integrity line is
+// well formed and matches, picks the record accordingly and must return the table and subnets the real constructor built.
 package c18
 
 import (
 	"bytes"
+	"crypto/sha256"
+	"encoding/hex"
 	"fmt"
 	"net"
 	"net/netip"
@@ -216,13 +220,39 @@ func parseCaptured(s string) ([][]byte, bool) {
 	return out, true
 }
 
+const sealLen = 75 // "# sha256: " + 64 hex digits + line break
+
 func modelTail(cfgIdx int, capt [][]byte, data []byte, noFile bool) (string, bool) {
 	home, nf := expected(cfgIdx)
-	rec, unmodelled := "E", false
+	rec, recBody, unmodelled, u2 := "E", "E", false, false
+	head, rest := data, []byte(nil)
+	if len(data) > sealLen {
+		head, rest = data[:sealLen], data[sealLen:]
+	}
 	if !noFile {
 		rec, unmodelled = record(dhcp.VerifDecode(data))
+		if len(data) >= sealLen {
+			recBody, u2 = record(dhcp.VerifDecode(rest))
+		}
 	}
-	return fmt.Sprintf(" @ %s %s %s %s", home, nf, capturedStr(capt), rec), unmodelled
+	sum := sha256.Sum256(rest)
+	return fmt.Sprintf(" @ %s %s %s %s %s %s %s", home, nf, capturedStr(capt), rec, recBody, core.Hex(head), hex.EncodeToString(sum[:])), unmodelled || u2
+}
+
+// sealOf: the harness's own reading of the integrity line: "" when the file has no well-formed one (legacy path),
+// else "ok" / "mismatch".
+func sealOf(data []byte) string {
+	if len(data) < sealLen || string(data[:10]) != "# sha256: " || data[sealLen-1] != '\n' {
+		return ""
+	}
+	want, err := hex.DecodeString(string(data[10 : sealLen-1]))
+	if err != nil {
+		return ""
+	}
+	if sum := sha256.Sum256(data[sealLen:]); bytes.Equal(sum[:], want) {
+		return "ok"
+	}
+	return "mismatch"
 }
 
 func inHome(cfgIdx int, ip uint32) bool { return c11.Cfgs[cfgIdx].Home.Contains(c11.Addr(ip)) }
@@ -263,6 +293,12 @@ type savedFile struct {
 
 var saved []savedFile
 var savedSeen = map[string]bool{}
+
+// loads of the intact original files (every fault line of a file repeats it)
+var origCache = map[string]*loadResult{}
+
+// Legacy counts the documented outcomes of damaged files WITHOUT integrity line (class dhcp.loadlegacy).
+var Legacy = map[string]int{}
 
 // fileVsTable compares the lease file on disk with the allocated leases the handler holds (client id, MAC, address and
 // expiry instant): "" when the file is save(table).
@@ -507,8 +543,17 @@ func evalLoad(c *core.Ctx, f []string) *core.Case {
 	}
 	var orig *loadResult
 	if f[4] != "-" {
-		o := load(core.UnHex(f[4]))
-		orig = &o
+		key := f[1] + " " + f[2] + " " + f[4]
+		if o, ok := origCache[key]; ok {
+			orig = o
+		} else {
+			o := load(core.UnHex(f[4]))
+			o.world = nil
+			orig = &o
+			if len(origCache) < 64 {
+				origCache[key] = orig
+			}
+		}
 	}
 	r := load(data)
 	tail, unmodelled := modelTail(cfgIdx, capt, data, false)
@@ -526,12 +571,21 @@ func evalLoad(c *core.Ctx, f []string) *core.Case {
 		origData := core.UnHex(f[4])
 		class := faultClass(data, origData)
 		dRecs, oRecs := dhcp.VerifDecode(data).Leases, dhcp.VerifDecode(origData).Leases
+		// files of the repaired saveConfig (dhcp.load): intact or empty, nothing else, no exception.
+		// legacy files (dhcp.loadlegacy: no integrity line, outside the quantifier of C18 since the repaired saveConfig
+		// never writes one): the documented behaviour of the unchanged legacy path is tolerated in exactly the shapes
+		// recorded when it was a known finding (forgedShape; leading records of a truncated file) and counted.
+		legacy := f[0] == "dhcp.loadlegacy"
+		if legacy && sealOf(origData) != "" {
+			return "dhcp.loadlegacy line whose original file carries an integrity line", ""
+		}
 		n := 0
 		for _, b := range r.bindings {
 			if !in[b] {
 				what := fmt.Sprintf("damaged lease file (%s) yields binding %s -> client %x mac %x that is absent from the original file", class, c11.Addr(b.ip), b.cid, b.mac)
-				if forgedShape(class, b, dRecs, oRecs) {
-					return what, "forged-binding"
+				if legacy && forgedShape(class, b, dRecs, oRecs) {
+					Legacy["forged-binding"]++
+					return "", ""
 				}
 				return what, ""
 			}
@@ -539,6 +593,9 @@ func evalLoad(c *core.Ctx, f []string) *core.Case {
 		}
 		if n != 0 && n != len(orig.bindings) {
 			what := fmt.Sprintf("damaged lease file (%s) yields %d of the %d original bindings (neither intact nor empty)", class, n, len(orig.bindings))
+			if !legacy {
+				return what, ""
+			}
 			if class == "truncation" {
 				// a cut file may only keep the LEADING records: the survivors must be the first n accepted records of the original
 				k := 0
@@ -553,7 +610,8 @@ func evalLoad(c *core.Ctx, f []string) *core.Case {
 					k++
 				}
 			}
-			return what, "partial-table"
+			Legacy["partial-table"]++
+			return "", ""
 		}
 		return "", ""
 	}
@@ -694,7 +752,7 @@ func Eval(c *core.Ctx, line string) *core.Case {
 	switch {
 	case len(f) >= 3 && f[0] == "dhcp.restart":
 		return evalRestart(c, f)
-	case len(f) >= 5 && f[0] == "dhcp.load":
+	case len(f) >= 5 && (f[0] == "dhcp.load" || f[0] == "dhcp.loadlegacy"):
 		return evalLoad(c, f)
 	}
 	return nil
@@ -847,8 +905,9 @@ func Gen(c *core.Ctx) {
 		// keep the richest files and a few small ones
 		files = append(files[:nf-1:nf-1], files[len(files)-1])
 	}
+	cmd := "dhcp.load"
 	add := func(sf savedFile, data []byte, class string) {
-		line := fmt.Sprintf("dhcp.load %d:%d %s %s %s", sf.cfgIdx, sf.mode, capturedStr(sf.capt), core.Hex(data), core.Hex(sf.data))
+		line := fmt.Sprintf("%s %d:%d %s %s %s", cmd, sf.cfgIdx, sf.mode, capturedStr(sf.capt), core.Hex(data), core.Hex(sf.data))
 		if cs := Eval(c, line); cs != nil {
 			cs.Class = class
 			c.Add(*cs)
@@ -867,18 +926,62 @@ func Gen(c *core.Ctx) {
 			add(other, sf.data, "changed-config")
 		}
 	}
+	// every file is enumerated as the repaired saveConfig wrote it (strict: intact or empty) and, with the integrity line
+	// removed, as a legacy file (documented legacy behaviour, fewer samples)
+	nfiles := len(files)
+	for k, sf := range files[:nfiles] {
+		if sealOf(sf.data) != "" && k < c.Scale(4, 12) {
+			files = append(files, savedFile{sf.cfgIdx, sf.mode, sf.capt, append([]byte{}, sf.data[sealLen:]...)})
+		}
+	}
+	unsealed := 0
 	for fi, sf := range files {
 		d := sf.data
+		cmd = "dhcp.load"
+		if fi >= nfiles {
+			cmd = "dhcp.loadlegacy"
+		} else if sealOf(d) == "" {
+			unsealed++
+		}
 		add(sf, d, "intact")
+		if fi < nfiles && sealOf(d) != "" && fi < c.Scale(2, 16) {
+			// the integrity line itself: every byte of it (keyword, hex digits, line break) replaced: by every other value at
+			// the positions where the line starts / the keyword ends / the digits start and end / the line ends (all positions
+			// for the richest files in the thorough tier), elsewhere by the values that matter to a YAML reader or a hex decoder
+			special := []byte("\n\r\t #\"':-,.0aAfFgGzZ[]{}|>&*!%?@`~x\x00\x7f\x80\xc3\xff")
+			for pos := 0; pos < sealLen; pos++ {
+				vals := special
+				if fi < c.Scale(0, 2) || pos == 0 || pos == 9 || pos == 10 || pos == sealLen-2 || pos == sealLen-1 {
+					vals = make([]byte, 256)
+					for v := range vals {
+						vals[v] = byte(v)
+					}
+				}
+				for _, v := range vals {
+					if v == d[pos] {
+						continue
+					}
+					b := append([]byte{}, d...)
+					b[pos] = v
+					add(sf, b, "subst-seal")
+				}
+			}
+		}
 
 		step := 1
 		if fi >= c.Scale(2, 12) {
 			step = 7
 		}
+		if fi >= nfiles && fi-nfiles >= c.Scale(1, 6) {
+			step = 13
+		}
 		for n := 0; n < len(d); n += step { // every prefix (truncation at every byte offset)
 			add(sf, d[:n], "prefix")
 		}
 		nsub := c.Scale(400, 4000)
+		if fi >= nfiles {
+			nsub = c.Scale(100, 1000)
+		}
 		for k := 0; k < nsub; k++ { // single-byte substitutions
 			b := append([]byte{}, d...)
 			pos := c.Rnd.Intn(len(b))
@@ -901,5 +1004,7 @@ func Gen(c *core.Ctx) {
 			add(sf, dup, "linedup")
 		}
 	}
-	c.Res.Extra["lease_files"] = len(files)
+	c.Res.Extra["lease_files"] = nfiles
+	c.Res.Extra["lease_files_without_integrity_line"] = unsealed
+	c.Res.Extra["legacy_files_documented_outcomes"] = Legacy
 }
